@@ -471,6 +471,28 @@ def extension_matches(F):
                     it = fn.term(d["init"])
                     if it[0] == "call" and it[1].endswith("StringUtility::ConvertToUpper"):
                         upper.add(("var", d["n"], d["d"]))
+    # a side may be the result of a file-local helper that upper-cases its argument first (`NormalizeExtension(ext)`): then
+    # every value the helper returns must be an upper-cased local of its own
+    for sd in list(sides):
+        if sd[0] == "call" and sd[2] is None and len(sd[3]) == 1:
+            hs = [h for h in F.by_qn.get(sd[1], []) if h.cfg and len(h.params) == 1 and h.file.startswith(F.repo)]
+            if len(hs) == 1:
+                h = hs[0]
+                hup = set()
+                for nd in h.nodes:
+                    if nd["k"] in CALLS and (nd.get("fq") or "").endswith("ConvertToUpperInPlace"):
+                        hup.add(h.term(nd["args"][0]))
+                    if nd["k"] == "DeclStmt":
+                        for d in nd.get("decls", []):
+                            if "init" in d:
+                                it = h.term(d["init"])
+                                while it[0] == "ctor" and len(it[2]) == 1:
+                                    it = it[2][0]
+                                if it[0] == "call" and it[1].endswith("StringUtility::ConvertToUpper") and it[3] == (P(h, 0),):
+                                    hup.add(("var", d["n"], d["d"]))
+                hrets = returns(h)
+                if hrets and all(h.term(r["value"]) in hup or (h.term(r["value"])[0] == "ctor" and h.term(r["value"])[2] and h.term(r["value"])[2][0] in hup) for r in hrets):
+                    upper.add(sd)
     if all(s in upper for s in sides):
         return pre + [ok("R-SIB", inst, fn.loc(rets[0]["id"]), fn.qn, req, "%s == %s, both upper-cased" % (fmt_term(sides[0]), fmt_term(sides[1])))]
     return pre + [bad("R-SIB", inst, fn.loc(rets[0]["id"]), fn.qn, req, "not upper-cased: %s" % ", ".join(fmt_term(s) for s in sides if s not in upper))]
